@@ -51,6 +51,11 @@ CLAIMS = {
         "note": "Trusts CrossHair/z3, model.history_ref/complete_config, the native reachability exploration that supplies the pre-states (it runs the real _record_history). Skeletons: curated CUR4/5/9/12/13 + generated trees with history nodes. History targets taken while the parent is active are excluded (statement leaves them open).",
         "design": "DESIGN.md section 4 C11",
     },
+    "C18": {
+        "text": "Bounded symbolic check: re-spellings of a canonical config (transition string/object/list forms, always vs '' vs both, cond vs guard, action string/list/object, '100' vs 100, omitted initial; all combinations within feature groups) parse to the same deep fingerprint and trace; ANY target string (symbolic, bounded length) that the resolver maps from the source to the same node leads both engines to the same configuration; resolve_target_state is total (node of the machine or StateNotFoundError); unresolvable dotted/#-targets raise StateNotFoundError and change nothing; every single-point corruption (102 JSON subtrees x 9 replacements of another JSON type) of a feature-rich config and 12 top-level forms are accepted consistently or rejected with an XStateMachineError - never a raw TypeError/AttributeError/KeyError/ValueError.",
+        "note": "Trusts CrossHair/z3 and the fingerprint in harness/c18.py. Corrupted configs are concrete after the symbolic (position, replacement) choice and are parsed/run natively inside the path. The 'silently something else' clause is checked for unresolvable targets only. Logic auto-discovery (LogicLoader) on malformed configs is C19's side.",
+        "design": "DESIGN.md section 4 C18",
+    },
     "C20": {
         "text": "Bounded symbolic check: BaseInterpreter._matching_descriptors on 2-3 symbolic (arbitrary unicode) keys and a symbolic event type equals the reference ordering exact > partial by decreasing prefix > '*', engine-internal events exact only; and send() of a symbolic event type on a two-level machine with symbolic guard outcomes and null entries fires exactly the reference nominee on both engines.",
         "note": "Trusts CrossHair/z3 and the reference descriptor_ref/_select_ref. String lengths bounded (L in evidence); a duck-typed linear-scan mapping replaces dict for symbolic keys; the engine-level machine is one fixed two-level shape with 7 null-entry variants.",
